@@ -7,12 +7,15 @@ import (
 	"context"
 	"fmt"
 	"math"
+	"os"
 	"sort"
+	"sync/atomic"
 	"time"
 
 	"github.com/blevesearch/bleve/v2"
 	"github.com/blevesearch/bleve/v2/index/scorch"
 	"github.com/blevesearch/bleve/v2/index/upsidedown"
+	"github.com/blevesearch/bleve/v2/index/upsidedown/store/boltdb"
 	"github.com/blevesearch/bleve/v2/index/upsidedown/store/gtreap"
 	"github.com/blevesearch/bleve/v2/numeric"
 	"github.com/blevesearch/bleve/v2/search"
@@ -42,7 +45,14 @@ type In struct {
 	IMax   *bool      `json:"imax,omitempty"`
 	Docs   [][]uint64 `json:"docs,omitempty"`
 	DDocs  [][]int64  `json:"ddocs,omitempty"`
-	Engine string     `json:"engine,omitempty"`
+	Engine string     `json:"engine,omitempty"` // scorch | upsidedown (gtreap) | upsidedown-bolt (boltdb on disk)
+	// sortm: SortField over the multi-valued field n
+	Date   bool `json:"date,omitempty"`   // DDocs (datetime field) instead of Docs (numeric field)
+	Mode   int  `json:"mode,omitempty"`   // search.SortFieldMode: 0 default 1 min 2 max
+	Desc   bool `json:"desc,omitempty"`
+	MFirst bool `json:"mfirst,omitempty"` // SortFieldMissingFirst
+	SType  int  `json:"stype,omitempty"`  // search.SortFieldType: 0 auto 2 number 3 date
+	Batch  int  `json:"batch,omitempty"`  // docs per batch (0: 3)
 }
 
 const probeBudget = 4000
@@ -243,10 +253,7 @@ func gen(f vh.Flags, r *vrand.R, emit func(In)) {
 			}
 			return &v
 		}
-		eng := "scorch"
-		if k%3 == 2 {
-			eng = "upsidedown"
-		}
+		eng := engineOf(k)
 		emit(In{Kind: "api", Mn: pick(), Mx: pick(), IMin: optB(), IMax: optB(), Docs: docs, Engine: eng})
 	}
 	nd := f.N(60, 3000)
@@ -292,10 +299,7 @@ func gen(f vh.Flags, r *vrand.R, emit func(In)) {
 			v := pt()
 			lo = &v
 		}
-		eng := "scorch"
-		if k%3 == 2 {
-			eng = "upsidedown"
-		}
+		eng := engineOf(k)
 		emit(In{Kind: "date", DLo: lo, DHi: hi, IMin: optB(), IMax: optB(), DDocs: docs, Engine: eng})
 	}
 	ns := f.N(40, 1500)
@@ -313,9 +317,85 @@ func gen(f vh.Flags, r *vrand.R, emit func(In)) {
 		eng := "scorch"
 		if k%2 == 1 {
 			eng = "upsidedown"
+			if k%4 == 3 {
+				eng = "upsidedown-bolt"
+			}
 		}
 		emit(In{Kind: "sort", Docs: vals, Engine: eng})
 	}
+	// sorting by a MULTI-valued numeric / datetime field with every SortField mode, direction and
+	// missing placement, on every index layout: several values per document (mostly >= 3), in the
+	// (random, hence unsorted) order they were drawn, negative and fractional ones included, values
+	// shared between documents (equal keys) and documents without the field
+	nm := f.N(96, 4000)
+	for k := 0; k < nm; k++ {
+		in := In{Kind: "sortm", Engine: []string{"scorch", "upsidedown", "upsidedown-bolt", "upsidedown"}[k%4],
+			Mode: (k / 4) % 3, Desc: r.Bool(), MFirst: r.Bool(), Batch: vrand.Pick(r, []int{1, 3, 3, 100})}
+		in.Date = r.Chance(1, 3)
+		nd := r.Range(3, 12)
+		nvals := func() int { return vrand.Pick(r, []int{0, 1, 2, 3, 3, 3, 4, 5, 6}) }
+		if in.Date {
+			in.SType = vrand.Pick(r, []int{0, 3})
+			base := int64(r.Range(-3, 3)) * 1_000_000_000
+			if r.Chance(1, 3) {
+				base = r.I64() >> uint(r.Range(2, 30))
+			}
+			pool := make([]int64, r.Range(3, 3*nd))
+			for i := range pool {
+				switch r.Intn(4) {
+				case 0:
+					pool[i] = base + int64(r.Range(-5, 5))
+				case 1:
+					pool[i] = base + int64(r.Range(-5, 5))*1_000_000
+				case 2:
+					pool[i] = int64(r.Range(-400, 400)) * 86_400_000_000_000 // days around the epoch, both sides
+				default:
+					pool[i] = base + int64(r.Range(-5000, 5000))*1_000_000_000
+				}
+			}
+			in.DDocs = make([][]int64, nd)
+			for i := range in.DDocs {
+				for j := nvals(); j > 0; j-- {
+					in.DDocs[i] = append(in.DDocs[i], vrand.Pick(r, pool))
+				}
+			}
+		} else {
+			in.SType = vrand.Pick(r, []int{0, 2})
+			pool := make([]uint64, r.Range(3, 3*nd))
+			for i := range pool {
+				switch r.Intn(5) {
+				case 0:
+					pool[i] = math.Float64bits(float64(r.Range(-60, 60)))
+				case 1:
+					pool[i] = math.Float64bits(float64(r.Range(-400, 400)) / float64(vrand.Pick(r, []int{2, 4, 8, 16, 3, 10})))
+				case 2:
+					pool[i] = math.Float64bits(float64(r.Range(-9, 9)) * math.Pow(10, float64(r.Range(-6, 9))))
+				default:
+					pool[i] = edgeFloatBits(r)
+				}
+				if isNaN(pool[i]) || isNegZero(pool[i]) {
+					pool[i] = math.Float64bits(-0.5)
+				}
+			}
+			in.Docs = make([][]uint64, nd)
+			for i := range in.Docs {
+				for j := nvals(); j > 0; j-- {
+					in.Docs[i] = append(in.Docs[i], vrand.Pick(r, pool))
+				}
+			}
+		}
+		emit(in)
+	}
+}
+
+func engineOf(k int) string {
+	switch k % 6 {
+	case 2:
+		return "upsidedown"
+	case 5:
+		return "upsidedown-bolt"
+	}
+	return "scorch"
 }
 
 // sortKey orders bit patterns as numbers (generator use only).
@@ -369,22 +449,47 @@ func (d *countingDict) Contains(key []byte) (bool, error) {
 }
 func (d *countingDict) BytesRead() uint64 { return d.inner.BytesRead() }
 
-func newIndex(engine string) (bleve.Index, error) {
+var scratchSeq atomic.Int64
+
+// newIndex returns the index and the function that closes it (and removes its scratch directory
+// for the on-disk layout)
+func newIndex(engine string) (bleve.Index, func(), error) {
 	m := bleve.NewIndexMapping()
-	if engine == "upsidedown" {
-		return bleve.NewUsing("", m, upsidedown.Name, gtreap.Name, nil)
+	var idx bleve.Index
+	var err error
+	dir := ""
+	switch engine {
+	case "upsidedown":
+		idx, err = bleve.NewUsing("", m, upsidedown.Name, gtreap.Name, nil)
+	case "upsidedown-bolt":
+		dir = fmt.Sprintf("/tmp/vh_c07_%d_%d", os.Getpid(), scratchSeq.Add(1))
+		_ = os.RemoveAll(dir)
+		idx, err = bleve.NewUsing(dir, m, upsidedown.Name, boltdb.Name, nil)
+	default:
+		idx, err = bleve.NewUsing("", m, scorch.Name, scorch.Name, nil)
 	}
-	return bleve.NewUsing("", m, scorch.Name, scorch.Name, nil)
+	if err != nil {
+		if dir != "" {
+			_ = os.RemoveAll(dir)
+		}
+		return nil, nil, err
+	}
+	return idx, func() {
+		_ = idx.Close()
+		if dir != "" {
+			_ = os.RemoveAll(dir)
+		}
+	}, nil
 }
 
 // probe runs NewNumericRangeSearcher over a scorch reader whose dictionary counts (and
 // bounds) the candidate terms probed.
 func probe(mn, mx *float64, imin, imax *bool) (cands [][]byte, blown bool, err error) {
-	idx, err := newIndex("scorch")
+	idx, closeIdx, err := newIndex("scorch")
 	if err != nil {
 		return nil, false, err
 	}
-	defer idx.Close()
+	defer closeIdx()
 	_ = idx.Index("d", map[string]interface{}{"n": 1.5})
 	adv, err := idx.Advanced()
 	if err != nil {
@@ -482,7 +587,7 @@ func exec(in In) vh.Result {
 		}
 		return vh.Result{Term: cf.App("CCand", optZ(in.Mn), optZ(in.Mx), optBool(in.IMin), optBool(in.IMax),
 			cf.ListOf(cands, cf.Bytes)), Nontrivial: len(cands) >= 8, Hist: []string{"cand", fmt.Sprintf("cand:n=%d", len(cands)/16*16)}}
-	case "api", "date", "sort":
+	case "api", "date", "sort", "sortm":
 		return execAPI(in)
 	}
 	return vh.Result{Skip: true}
@@ -519,19 +624,24 @@ func execAPI(in In) vh.Result {
 			return vh.Result{Direct: &vh.Direct{Kind: "error", Detail: err.Error()}}
 		}
 	}
-	idx, err := newIndex(in.Engine)
+	idx, closeIdx, err := newIndex(in.Engine)
 	if err != nil {
 		return vh.Result{Direct: &vh.Direct{Kind: "error", Detail: err.Error()}}
 	}
-	defer idx.Close()
+	defer closeIdx()
 	nd := len(in.Docs)
-	if in.Kind == "date" {
+	isDate := in.Kind == "date" || (in.Kind == "sortm" && in.Date)
+	if isDate {
 		nd = len(in.DDocs)
+	}
+	bs := 3
+	if in.Batch > 0 {
+		bs = in.Batch
 	}
 	b := idx.NewBatch()
 	for i := 0; i < nd; i++ {
 		var vals []interface{}
-		if in.Kind == "date" {
+		if isDate {
 			for _, ns := range in.DDocs[i] {
 				vals = append(vals, time.Unix(0, ns).UTC())
 			}
@@ -541,7 +651,7 @@ func execAPI(in In) vh.Result {
 			}
 		}
 		_ = b.Index(fmt.Sprintf("d%03d", i), map[string]interface{}{"n": vals, "k": "x"})
-		if i%3 == 2 {
+		if i%bs == bs-1 {
 			_ = idx.Batch(b)
 			b = idx.NewBatch()
 		}
@@ -620,6 +730,50 @@ func execAPI(in In) vh.Result {
 		}
 		return vh.Result{Term: cf.App("CSort", cf.ListOf(vals, cf.U), cf.ListOf(order, cf.Int)),
 			Nontrivial: !sort.IntsAreSorted(order), Hist: []string{"sort:" + in.Engine}}
+	case "sortm":
+		req := bleve.NewSearchRequestOptions(bleve.NewMatchAllQuery(), nd+5, 0, false)
+		miss := search.SortFieldMissingLast
+		if in.MFirst {
+			miss = search.SortFieldMissingFirst
+		}
+		req.SortByCustom(search.SortOrder{&search.SortField{Field: "n", Type: search.SortFieldType(in.SType),
+			Mode: search.SortFieldMode(in.Mode), Desc: in.Desc, Missing: miss}})
+		if d := run(req); d != nil {
+			return vh.Result{Direct: d}
+		}
+		if serr != nil {
+			return vh.Result{Direct: &vh.Direct{Kind: "error", Detail: serr.Error()}}
+		}
+		var order []int
+		for _, h := range res.Hits {
+			i := -1
+			fmt.Sscanf(h.ID, "d%d", &i)
+			order = append(order, i)
+		}
+		var docsT cf.T
+		multi := 0
+		if in.Date {
+			docsT = cf.ListOf(in.DDocs, func(vs []int64) cf.T { return cf.ListOf(vs, cf.Z) })
+			for _, vs := range in.DDocs {
+				if len(vs) >= 3 {
+					multi++
+				}
+			}
+		} else {
+			docsT = cf.ListOf(in.Docs, func(vs []uint64) cf.T { return cf.ListOf(vs, cf.U) })
+			for _, vs := range in.Docs {
+				if len(vs) >= 3 {
+					multi++
+				}
+			}
+		}
+		field := "numeric"
+		if in.Date {
+			field = "datetime"
+		}
+		return vh.Result{Term: cf.App("CSortM", cf.Bool(in.Date), cf.Int(in.Mode), cf.Bool(in.Desc), cf.Bool(in.MFirst), docsT, cf.ListOf(order, cf.Int)),
+			Nontrivial: multi >= 2 && !sort.IntsAreSorted(order),
+			Hist: []string{"sortm:" + in.Engine, fmt.Sprintf("sortm:mode=%d", in.Mode), "sortm:" + field}}
 	}
 	return vh.Result{Skip: true}
 }
@@ -644,8 +798,10 @@ func main() {
 		CheckFn:  "Corr.check",
 		ExplainFn: "Corr.explain",
 		Rule: "boundary-directed values (signs, +-Inf, subnormals, 1-ulp neighbours, every 4-bit and 7-bit group boundary k*16^j+-1, k*128^j+-1, int64 extremes) plus random ones; " +
-			"kinds f2i/i2f/enc/dec/cmp/split (function level), cand (searcher-level candidate-term probe), api/date/sort (Index.Search on scorch and upsidedown); " +
-			"non-trivial: negative values, shifts 1..63, valid terms, unequal pairs, splits with >=3 ranges, >=8 candidates, queries matching some but not all documents, sorts that reorder",
+			"kinds f2i/i2f/enc/dec/cmp/split (function level), cand (searcher-level candidate-term probe), api/date/sort/sortm (Index.Search on scorch in-memory, upside_down over gtreap and upside_down over boltdb on disk); " +
+			"sortm = sort by a multi-valued numeric or datetime field (0-6 values per document, mostly >=3, in drawn = unsorted order, negative/fractional/boundary values, values shared between documents, documents without the field) " +
+			"with SortField mode default/min/max x asc/desc x missing first/last x type auto/number/date; " +
+			"non-trivial: negative values, shifts 1..63, valid terms, unequal pairs, splits with >=3 ranges, >=8 candidates, queries matching some but not all documents, sorts that reorder (sortm: with >=2 documents of >=3 values)",
 		ShardSize: 600,
 	}, gen, exec)
 }
